@@ -179,7 +179,7 @@ inductive Visitor where
   | aux
   deriving DecidableEq, Repr
 
-inductive VisitHow where | explicit | raisesInternal | raisesUser deriving DecidableEq, Repr
+inductive VisitHow where | explicit | identity | raisesInternal | raisesUser deriving DecidableEq, Repr
 inductive ReadHow where | read | guard deriving DecidableEq, Repr
 inductive GenericHow where | rejects | forwards | fallback | other deriving DecidableEq, Repr
 
@@ -488,7 +488,7 @@ def visits : List (Visitor × Kind × VisitHow) := [
   (.ExprBuilder, .GeneratorExp, .explicit),
   (.ExprBuilder, .IfExp, .explicit),
   (.ExprBuilder, .ListComp, .explicit),
-  (.ExprBuilder, .Name, .explicit),
+  (.ExprBuilder, .Name, .identity),
   (.ExprBuilder, .NamedExpr, .explicit),
   (.ExprBuilder, .UnaryOp, .explicit),
   (.ExprChecker, .Call, .explicit),
